@@ -2,6 +2,7 @@ import Props.C12Weight
 import Props.C12Congress
 import Generated.Sampling
 import Mathlib.Algebra.Order.Floor.Defs
+import Mathlib.Data.List.Sort
 /-!
 # C12 — sampling is consistent and unbiased
 
@@ -257,7 +258,7 @@ theorem c12_congress_rate_range (target : Nat) (ht : 0 < target) (ops : List Op)
 /-- **C12 (congress, below target).** If the interval that just ended saw no more entries than the
 target, every group's rate is 1. (`(reach …).cur` counts the entries since the last end of interval:
 `c12_congress_counts`.) -/
-theorem c12_congress_below_target (target : Nat) (ht : 0 < target) (ops : List Op) (order : List Nat)
+theorem c12_congress_below_target (target : Nat) (ht : 0 < target) (ops : List Op) (order : List Key)
     (hle : (reach target ops).cur ≤ target) :
     ∀ g ∈ (updateRates Q genConsts order (reach target ops)).groups, g.rate = 1 := by
   unfold reach at *
@@ -268,7 +269,7 @@ theorem c12_congress_below_target (target : Nat) (ht : 0 < target) (ops : List O
 /-- **C12 (congress, budget).** If the interval saw more than the target, then
 `Σ_g average_g · rate_g ≤ target` (the quantity the code bounds: `average_g · rate_g ≤
 size_in_congress_g · scale_factor`, and the sizes times the scale factor sum to the target). -/
-theorem c12_congress_budget (target : Nat) (ht : 0 < target) (ops : List Op) (order : List Nat)
+theorem c12_congress_budget (target : Nat) (ht : 0 < target) (ops : List Op) (order : List Key)
     (hgt : target < (reach target ops).cur) :
     ((updateRates Q genConsts order (reach target ops)).groups.map fun g => g.avg * g.rate).sum ≤ (target : ℚ) := by
   unfold reach at *
@@ -279,7 +280,7 @@ theorem c12_congress_budget (target : Nat) (ht : 0 < target) (ops : List Op) (or
 
 /-- **C12 (congress, monotone).** A rarer group is never sampled at a lower rate than a more
 frequent one: `average_g ≤ average_h → rate_h ≤ rate_g` (trivially so when all rates are 1). -/
-theorem c12_congress_monotone (target : Nat) (ht : 0 < target) (ops : List Op) (order : List Nat) :
+theorem c12_congress_monotone (target : Nat) (ht : 0 < target) (ops : List Op) (order : List Key) :
     ∀ g ∈ (updateRates Q genConsts order (reach target ops)).groups,
     ∀ h ∈ (updateRates Q genConsts order (reach target ops)).groups, g.avg ≤ h.avg → h.rate ≤ g.rate := by
   unfold reach at *
@@ -293,7 +294,7 @@ theorem c12_congress_monotone (target : Nat) (ht : 0 < target) (ops : List Op) (
 
 /-- every group's moving average is positive after an end of interval (no division by zero, no
 `average <= 0` fallback) -/
-theorem c12_congress_avg_pos (target : Nat) (ht : 0 < target) (ops : List Op) (order : List Nat) :
+theorem c12_congress_avg_pos (target : Nat) (ht : 0 < target) (ops : List Op) (order : List Key) :
     ∀ g ∈ (updateRates Q genConsts order (reach target ops)).groups, 0 < g.avg := by
   unfold reach at *
   have hi := run_inv genConsts genConsts_window (State.init target) ops (inv_init target) ht
@@ -307,6 +308,109 @@ theorem c12_congress_counts (C : Consts) (s : State ℚ) :
     (∀ gid n, (step Q C s (.obsN gid n)).cur = s.cur + n) ∧
     (∀ order, (step Q C s (.endInterval order)).cur = 0) :=
   ⟨fun _ => rfl, fun gid n => observeN_cur s gid n, fun order => (updateRates_target C order s).2⟩
+
+/-! ## Group identity: the order in which an entry yields its sample-group pairs is irrelevant -/
+
+/-- the order `group.sort_unstable()` sorts by -/
+def PairLe (a b : Pair) : Prop := pairLe a b = true
+
+instance : DecidableRel PairLe := fun a b => inferInstanceAs (Decidable (pairLe a b = true))
+
+theorem pairLe_iff (a b : Pair) : PairLe a b ↔ a.1 < b.1 ∨ (a.1 = b.1 ∧ a.2 ≤ b.2) := by
+  simp [PairLe, pairLe]
+
+instance : Std.Total PairLe := ⟨fun a b => by simp only [pairLe_iff]; omega⟩
+instance : IsTrans Pair PairLe := ⟨fun a b c => by simp only [pairLe_iff]; omega⟩
+instance : Std.Antisymm PairLe := ⟨fun a b h1 h2 => by
+  rw [pairLe_iff] at h1 h2
+  exact Prod.ext (by omega) (by omega)⟩
+
+theorem insertPair_eq (a : Pair) (l : Key) : insertPair a l = List.orderedInsert PairLe a l := by
+  induction l with
+  | nil => rfl
+  | cons b l ih =>
+    simp only [insertPair, List.orderedInsert_cons, ih, PairLe]
+    rfl
+
+theorem canon_eq (l : Key) : canon l = List.insertionSort PairLe l := by
+  induction l with
+  | nil => rfl
+  | cons a l ih =>
+    show insertPair a (canon l) = _
+    rw [ih, insertPair_eq]; rfl
+
+/-- sorting canonicalises: two spellings of the same group (permutations of one another, duplicate
+keys included) have the same key, and the key is a permutation of what was yielded -/
+theorem canon_perm {l l' : Key} (h : l.Perm l') : canon l = canon l' := by
+  rw [canon_eq, canon_eq]
+  apply List.Perm.eq_of_pairwise' (r := PairLe) (List.pairwise_insertionSort _ _) (List.pairwise_insertionSort _ _)
+  exact (List.perm_insertionSort _ _).trans (h.trans (List.perm_insertionSort _ _).symm)
+
+theorem canon_is_perm (l : Key) : (canon l).Perm l := by
+  rw [canon_eq]; exact List.perm_insertionSort _ _
+
+/-- two entry-level operations that differ only in the order of the yielded pairs -/
+inductive EOp.Similar : EOp → EOp → Prop
+  | entry {p p' : Key} : p.Perm p' → EOp.Similar (.entry p) (.entry p')
+  | entries {p p' : Key} (n : Nat) : p.Perm p' → EOp.Similar (.entries p n) (.entries p' n)
+  | endInterval (order : List Key) : EOp.Similar (.endInterval order) (.endInterval order)
+
+/-- two histories that differ only in the order in which each entry yields its pairs -/
+inductive Similar : List EOp → List EOp → Prop
+  | nil : Similar [] []
+  | cons {a b : EOp} {l m : List EOp} : EOp.Similar a b → Similar l m → Similar (a :: l) (b :: m)
+
+/-- **C12 (group identity).** For every arithmetic (so for the binary32 twin and for ℚ), every
+`validate_groups` setting, every starting state and every two histories that differ only by
+permuting, entry by entry, the `(key, value)` pairs the entries yield (`a.merge(b)` vs `b.merge(a)`,
+fields declared in another order, duplicate keys included): the sampler reaches the same state — the
+same groups, volumes, averages and rates — panics on the same entries, and hands the same rate to the
+next entry however that entry spells its group. -/
+theorem c12_group_order_irrelevant {α : Type} (A : Arith α) (C : Consts) (validate : Bool) (s : State α)
+    (eops eops' : List EOp) (h : Similar eops eops') :
+    runE A C canon validate s eops = runE A C canon validate s eops' ∧
+    ∀ p p' : Key, p.Perm p' →
+      entryRate A canon validate (runE A C canon validate s eops) p =
+      entryRate A canon validate (runE A C canon validate s eops') p' := by
+  have hops : eops.filterMap (toOp canon validate) = eops'.filterMap (toOp canon validate) := by
+    induction h with
+    | nil => rfl
+    | @cons a b _ _ hab _ ih =>
+      have : toOp canon validate a = toOp canon validate b := by
+        cases hab with
+        | entry hp => simp only [toOp, entryKey, canon_perm hp]
+        | entries n hp => simp only [toOp, entryKey, canon_perm hp]
+        | endInterval order => rfl
+      simp only [List.filterMap_cons, this, ih]
+  have hrun : runE A C canon validate s eops = runE A C canon validate s eops' := by
+    unfold runE; rw [hops]
+  refine ⟨hrun, fun p p' hp => ?_⟩
+  rw [hrun]; simp only [entryRate, entryKey, canon_perm hp]
+
+/-- every theorem about `run` applies to entry-level histories: they are runs (over the sorted keys) -/
+theorem c12_entries_are_observations {α : Type} (A : Arith α) (C : Consts) (κ : Key → Key) (validate : Bool)
+    (s : State α) (eops : List EOp) :
+    runE A C κ validate s eops = run A C s (eops.filterMap (toOp κ validate)) := rfl
+
+/-- a history in which one group (`op=1,status=1`, 300 entries) is yielded in both orders, and a
+rarer group (`op=2,status=1`, 200 entries) in one, in an interval above the target of 100 -/
+def splitHistory : List EOp :=
+  [.entries [(1,1),(2,1)] 150, .entries [(2,1),(1,1)] 150, .entries [(1,2),(2,1)] 200, .endInterval []]
+
+/-- **The sort is needed.** Without it (`κ = id`: the group key is the list as yielded) the frequent
+group is tracked as two groups of 150, and its entries are then sampled at a *higher* rate (5/24)
+than those of the rarer group (3/16): monotonicity over true group volumes fails. With the sort
+(`κ = canon`) the same history gives 2/11 ≤ 5/22. (Evaluated over ℚ by the kernel.) -/
+theorem c12_sort_needed :
+    entryRate Q id false (runE Q genConsts id false (State.init 100) splitHistory) [(1,1),(2,1)] = some (5/24) ∧
+    entryRate Q id false (runE Q genConsts id false (State.init 100) splitHistory) [(1,2),(2,1)] = some (3/16) ∧
+    entryRate Q canon false (runE Q genConsts canon false (State.init 100) splitHistory) [(2,1),(1,1)] = some (2/11) ∧
+    entryRate Q canon false (runE Q genConsts canon false (State.init 100) splitHistory) [(1,2),(2,1)] = some (5/22) := by
+  decide +kernel
+
+/-- with `validate_groups` a duplicate key panics whatever the order, without it the entry is sampled -/
+example : entryKey canon true [(2,1),(1,1),(2,7)] = none ∧ entryKey canon true [(2,7),(2,1),(1,1)] = none ∧
+    entryKey canon false [(2,7),(2,1),(1,1)] = some [(1,1),(2,1),(2,7)] := by decide
 
 /-! ## Every binary32 rate has the shape the weight theorems assume -/
 
@@ -336,7 +440,7 @@ theorem c12_f32_rate_shape (bits : Nat) (h0 : 0 < bits) (h1 : bits ≤ 0x3f80000
 
 /-! ## The driver's shortcut for large volumes -/
 
-theorem bumpFirst_zero {α : Type} (gid : Nat) (gs : List (Group α)) : bumpFirst gid 0 gs = gs := by
+theorem bumpFirst_zero {α : Type} (gid : Key) (gs : List (Group α)) : bumpFirst gid 0 gs = gs := by
   induction gs with
   | nil => rfl
   | cons g gs ih =>
@@ -344,7 +448,7 @@ theorem bumpFirst_zero {α : Type} (gid : Nat) (gs : List (Group α)) : bumpFirs
     · rename_i h; cases g; simp_all
     · simp_all
 
-theorem bumpFirst_add {α : Type} (gid a b : Nat) (gs : List (Group α)) :
+theorem bumpFirst_add {α : Type} (gid : Key) (a b : Nat) (gs : List (Group α)) :
     bumpFirst gid a (bumpFirst gid b gs) = bumpFirst gid (b + a) gs := by
   induction gs with
   | nil => rfl
@@ -353,7 +457,7 @@ theorem bumpFirst_add {α : Type} (gid a b : Nat) (gs : List (Group α)) :
     · simp [bumpFirst, h, Nat.add_assoc]
     · simp [bumpFirst, h, ih]
 
-theorem observeGroups_twice {α : Type} (A : Arith α) (gid : Nat) (gs : List (Group α)) :
+theorem observeGroups_twice {α : Type} (A : Arith α) (gid : Key) (gs : List (Group α)) :
     (observeGroups A gid (observeGroups A gid gs).1).1 = bumpFirst gid 1 (observeGroups A gid gs).1 := by
   induction gs with
   | nil => simp [observeGroups, bumpFirst]
@@ -363,7 +467,7 @@ theorem observeGroups_twice {α : Type} (A : Arith α) (gid : Nat) (gs : List (G
     · simp [observeGroups, bumpFirst, h, ih]
 
 /-- `n` single observations of one group equal the bulk increment the driver uses. -/
-theorem c12_obsN_bulk {α : Type} (A : Arith α) (s : State α) (gid n : Nat) :
+theorem c12_obsN_bulk {α : Type} (A : Arith α) (s : State α) (gid : Key) (n : Nat) :
     observeN A s gid n = observeBulk A s gid n := by
   induction n generalizing s with
   | zero => simp [observeN, observeBulk]
@@ -400,4 +504,7 @@ end Sampling
 #print axioms Sampling.c12_congress_avg_pos
 #print axioms Sampling.c12_congress_counts
 #print axioms Sampling.c12_obsN_bulk
+#print axioms Sampling.c12_group_order_irrelevant
+#print axioms Sampling.c12_entries_are_observations
+#print axioms Sampling.c12_sort_needed
 #print axioms Sampling.c12_f32_rate_shape
